@@ -112,6 +112,7 @@ def rule_workers(ctx):
                       "batch is not consumed front-to-back by drain(..)", ctx.loc(wl))
         # every received packet reaches process_packet: the Ok payload of recv flows into process_packet or the batch
         W.received_consumed(ctx, P, fam, wl, "R3")
+        W.exit_conditions(ctx, P, fam, wl, wp, "R5")
         W.uniform_workers(ctx, P, [c for c, f in CRATES.items() if f == fam][0], fam, "R2")
         W.state_retained(ctx, P, [c for c, f in CRATES.items() if f == fam][0], fam, "R2", {"tcp": 0, "http": 2, "tls": 2}[fam])
         # R4 same pipeline
@@ -200,7 +201,17 @@ def rule_R6(ctx):
               "ConnectionKey = 4-tuple + is_client", "uptime ConnectionKey fields are %s" % fields)
 
 
+def rule_uptime_keys(ctx):
+    """R6: the timestamp tracker is keyed by this segment's own endpoints and direction (shared with C19.R2/R4) - a canonicalised key
+    makes two hosts share one entry sequentially, while the pool keeps them on different workers"""
+    from ..engine import report as R
+    from . import C19
+    C19.rule_R1_R2(R.Retag(ctx, "C19."))
+    C19.rule_R4(R.Retag(ctx, "C19."))
+
+
 def run(ctx):
+    rule_uptime_keys(ctx)
     rule_R1(ctx)
     rule_workers(ctx)
     rule_R6(ctx)
